@@ -254,6 +254,8 @@ def main(argv=None):
     import subprocess
 
     try:
+        from vlib import corpus
+        corpus.run_corpus(ctx)
         mod = importlib.import_module(f"props.{args.prop}")
         mod.run(ctx)
     except (subprocess.TimeoutExpired, OSError, MemoryError, ImportError, SyntaxError):
